@@ -80,13 +80,13 @@ def request_traces(prog):
                             lst = lambda v: [x.deref().v for x in v.v] if v.k == "list" and all(x.deref().k == "str" for x in v.v) else None
                             ev.append(("csr", repr(d[0]), lst(d[2]) if len(d) > 2 else None, lst(d[3]) if len(d) > 3 else None))
                         elif n.endswith("X509Certificate::from_pem"):
-                            ev.append(("from_pem",))
+                            ev.append(("from_pem", repr(d[0]) if d else None))
                         elif n.endswith("::has_public_key_of"):
                             ev.append(("match", repr(d[1]) if len(d) > 1 else None))
                         elif n == "acmed::storage::set_keypair":
                             ev.append(("set_keypair", repr(d[1]) if len(d) > 1 else None))
                         elif n == "acmed::storage::write_certificate":
-                            ev.append(("write_certificate",))
+                            ev.append(("write_certificate", repr(d[1]) if len(d) > 1 else None))
                         elif n.endswith("acme_proto::http::get_certificate"):
                             ev.append(("download",))
                         elif n.endswith("acme_proto::http::finalize_order"):
